@@ -2561,3 +2561,66 @@ def r_config_frame(rep, f):
             rep.violation("R-CONFIG-FRAME", key, "the setter writes %d fields (%s): one call changes the direction filter and the terminal count together" % (len(written), ", ".join(sorted(written))), b.get("sp"))
     if n < 4:
         rep.inconc("R-CONFIG-FRAME", "R-CONFIG-FRAME:floor", "only %d &mut self setters of EventConfig found (expected >= 4)" % n)
+
+
+class LatchMon(mon.Monitor):
+    """(a sample was pushed in this call, one-shot flags raised in this call)"""
+    init = ((False, frozenset()),)
+
+    def __init__(self, hc, flags):
+        super().__init__()
+        self.hc, self.flags = hc, flags
+
+    def step(self, st, ev):
+        kind, n = ev[0], ev[1]
+        pushed, raised = st
+        if kind == "node":
+            if n.get("k") == "MethodCall" and n.get("name") == "push":
+                r = n["recv"]
+                try:
+                    r = self.runner.resolve(r)
+                except Exception:
+                    pass
+                while r.get("k") in ("AddrOf", "DropTemps", "Paren"):
+                    r = r["e"]
+                if self.hc.field_is(r, "t"):
+                    return ((True, raised),)
+            if n.get("k") == "Assign" and n["l"].get("k") == "Field" and n["r"].get("k") == "Lit" and str(n["r"].get("v")).lower() == "true":
+                for fl in self.flags:
+                    if self.hc.field_is(n["l"], fl):
+                        return ((pushed, raised | {fl}),)
+        if kind in ("return", "fn_end") and raised and not pushed:
+            for fl in sorted(raised):
+                self.violate("R-FIRST-LATCH:%s:%s" % (self.hc.fn, fl), "`%s` is raised on a path that leaves the callback without recording a sample: the branch it switches off "
+                             "(skip the step's end point until the first output has been produced) never runs again, so the output it was waiting for is never produced and "
+                             "the first reported interval spans several accepted steps" % fl, n, self.cur_trail)
+        return (st,)
+
+
+def r_first_latch(rep, hc):
+    """one-shot flags of the handler: a boolean field that (negated) guards a branch which may leave the callback without
+    recording the accepted step's end point stands for "the output this branch waits for has been produced".  It may be raised
+    only on a path that records a sample in the same call."""
+    f = hc.f
+    # the one-shot flags: boolean fields of the handler that the callback itself raises (assigns the literal `true`) and reads
+    flags = set()
+    for a_ in tast.find(hc.body["body"], lambda z: z.get("k") == "Assign" and z["l"].get("k") == "Field" and (z["l"].get("fdef") or "").startswith(DSO)
+                        and (z["l"].get("ty") or "") == "bool" and z["r"].get("k") == "Lit" and str(z["r"].get("v")).lower() == "true"):
+        nm = a_["l"]["fdef"][len(DSO):]
+        reads = tast.find(hc.body["body"], lambda z: z.get("k") == "Field" and (z.get("fdef") or "") == DSO + nm and z is not a_["l"])
+        if len(reads) > sum(1 for _ in tast.find(hc.body["body"], lambda z: z.get("k") == "Assign" and hc.field_is(z["l"], nm))) - 1:
+            flags.add(nm)
+    key = "R-FIRST-LATCH:%s" % hc.fn
+    if not flags:
+        rep.ok("R-FIRST-LATCH", key, "no one-shot flag guards a skipping branch of the handler", nontrivial=False)
+        return 0
+    m = LatchMon(hc, flags)
+    mon.Runner(m).run_fn(hc.body)
+    seen = set()
+    for k_, msg, node, trail in m.violations:
+        if k_ not in seen:
+            seen.add(k_)
+            rep.violation("R-FIRST-LATCH", k_, msg, sp(node))
+    if not m.violations:
+        rep.ok("R-FIRST-LATCH", key, "flag(s) %s: raised only on paths that record a sample in the same call" % ", ".join(sorted(flags)))
+    return len(flags)
